@@ -18,6 +18,7 @@ MODULE_DEPS = {
     "config": [],
     "semaphore": [],
     "dedupe__c08": ["path", "file"],
+    "dedupe__c08b": ["path"],
     "lock": ["path"],
     "dedupe__c20": ["path"],
     "dedupe__c07": ["dedupe", "path", "file"],
@@ -77,6 +78,10 @@ k("c08_priority_most_nested_bounded", "dedupe::sort_by_priority [MostNested] + F
   cls="bounded", bound="3 sub-groups of one path each, nesting 1 or 2")
 k("c08_priority_top_bottom_bounded", "dedupe::sort_by_priority [Top, Bottom]", module="dedupe__c08", t=600,
   cls="bounded", bound="3 sub-groups of one path each")
+k("c08_path_should_keep_bounded", "dedupe::should_keep", module="dedupe__c08b", t=900,
+  cls="bounded", bound="<= 2 patterns per option, one two-component path; Pattern matchers arbitrary and independent")
+k("c08_path_may_drop_bounded", "dedupe::may_drop", module="dedupe__c08b", t=900,
+  cls="bounded", bound="<= 2 patterns per option, one two-component path; Pattern matchers arbitrary and independent")
 # ---- semaphore.rs
 k("c19_release", "semaphore::Semaphore::release", module="semaphore", t=300)
 k("c19_guard_roundtrip", "semaphore::Semaphore::access + Drop for SemaphoreGuard", module="semaphore", t=300)
@@ -178,7 +183,7 @@ PROPS = {
     ),
     "C08": dict(
         kani=["c08_subgroup_keep_drop_bounded", "c08_priority_least_nested_bounded", "c08_priority_most_nested_bounded",
-              "c08_priority_top_bottom_bounded"],
+              "c08_priority_top_bottom_bounded", "c08_path_should_keep_bounded", "c08_path_may_drop_bounded"],
         verus=["partition_tail", "subgroup_grouping"],
         prefixes=["C08.", "C02.partition_tail.", "C06.group."],
         category="proof",
